@@ -401,7 +401,11 @@ fn c20(ctx: &Ctx, rep: &mut Report) {
                     }
                     // --- Stdfs on the in-domain subset (C02's domain clause), absolute spellings only
                     let stays_in_domain = m != M::Symlink || matches!(q_abs.as_deref().and_then(|q| state.nodes.get(q)), Some(NNode { kind: NKind::Dir, .. }) | Some(NNode { kind: NKind::File(_), .. }));
-                    if si % 3 == 0 && stays_in_domain && in_domain_state(state) && p.starts_with('/') && (c.q.is_empty() || c.q.starts_with('/')) && !through_link(state, a.as_deref()) && !through_link(state, q_abs.as_deref()) {
+                    // (remove / remove_all have a postcondition that is read off the disk observation alone, so they are
+                    // also run on states with dangling links and links to links, where the other macros' predicates
+                    // are backend specific)
+                    let domain_ok = in_domain_state(state) || matches!(m, M::Remove | M::RemoveAll);
+                    if si % 3 == 0 && stays_in_domain && domain_ok && p.starts_with('/') && (c.q.is_empty() || c.q.starts_with('/')) && !through_link(state, a.as_deref()) && !through_link(state, q_abs.as_deref()) {
                         wipe(&root);
                         if let Err(e) = materialise_disk(state, &root) {
                             rep.count("stdfs_materialise_failed", 1);
